@@ -14,7 +14,11 @@ PROFILE = dict(blob=3, chunked=2, mount=1.5, image=5, index=3, artifact=1, mread
 
 def make_cases(ctx, first):
     n, steps = (400, 45) if ctx.tier == "quick" else (12000, 60)
-    confs = [mkconf(store="mem"), mkconf(store="dir"), mkconf(store="dir", mlimit=700), mkconf(store="mem", mlimit=500)]
+    # Close() of the directory store collects every open repository: with the default policy that removes
+    # the referrers response of a subject that was deleted.  Collections belong to C05/C06, so the
+    # restart histories of this check run with a policy under which a collection removes nothing young.
+    confs = [mkconf(store="mem"), mkconf(store="dir", withsubj=False), mkconf(store="dir", mlimit=700, withsubj=False),
+             mkconf(store="mem", mlimit=500)]
     cases = []
     for i in range(n):
         conf = confs[i % len(confs)]
